@@ -858,7 +858,7 @@ class UpdateGhostProps(Equation):
         assert GHOST_TAG == 2
 
     def initialize(self, d_idx, d_orig_idx, d_p, d_tag, d_h, d_rho, d_dndh,
-                   d_psumdh, d_n):
+                   d_dpsumdh, d_n):
         idx = declare('int')
         if d_tag[d_idx] == 2:
             idx = d_orig_idx[d_idx]
@@ -866,7 +866,7 @@ class UpdateGhostProps(Equation):
             d_h[d_idx] = d_h[idx]
             d_rho[d_idx] = d_rho[idx]
             d_dndh[d_idx] = d_dndh[idx]
-            d_psumdh[d_idx] = d_psumdh[idx]
+            d_dpsumdh[d_idx] = d_dpsumdh[idx]
             d_n[d_idx] = d_n[idx]
 
 
